@@ -412,3 +412,20 @@ def write_bundle(w, path):
             mins[oid] = bars_array(rows, FDT if fut else SDT, fut)
         with open(os.path.join(path, 'minutes.pk'), 'wb') as f:
             pickle.dump(mins, f, protocol=4)
+
+
+def apply_overrides(w, ov):
+    """scenario-level replacement of corporate actions (the factor table is recomputed)"""
+    if not ov:
+        return w
+    for sid, rows in ov.get('splits', {}).items():
+        w.splits[sid] = [tuple(r) for r in rows]
+        if not rows:
+            w.splits.pop(sid, None)
+    for sid, rows in ov.get('dividends', {}).items():
+        w.dividends[sid] = [tuple(r) for r in rows]
+        if not rows:
+            w.dividends.pop(sid, None)
+    for sid in set(list(ov.get('splits', {})) + list(ov.get('dividends', {}))):
+        w.exfac[sid] = consistent_exfac(w, sid)
+    return w
